@@ -67,12 +67,19 @@ class OwnerS:                  # slotted, weak-referenceable
     sig2 = Signal(E2)
 
 
-class OwnerF:                  # instances are falsy (an empty container)
+class OwnerF:                  # instances are falsy (an empty container) ...
     sig0 = Signal(E0)
     sig1 = Signal(E1)
 
     def __len__(self):
         return 0
+
+    # ... and not even equal to themselves (a value object holding a NaN reading): the bound signal belongs to
+    # the instance by IDENTITY
+    __hash__ = object.__hash__
+
+    def __eq__(self, other):
+        return False
 
 
 class OwnerC(OwnerA):          # instances are made by copy.copy() of another instance whose signals are bound
